@@ -22,9 +22,16 @@ if ! (cd "$WT" && CARGO_NET_OFFLINE=true cargo build --offline --quiet --bin blo
   echo "MUTANT $name: does not compile"; tail -5 /tmp/bwmut/build.log; exit 2
 fi
 if [ "${MUT_TESTS:-0}" = 1 ]; then
+  mkdir -p "$WT/.hg"   # the integration tests look for a .git/.hg *directory*; a worktree has a .git file
   if (cd "$WT" && CARGO_NET_OFFLINE=true cargo test --offline --quiet --workspace --target-dir "$TG") >/tmp/bwmut/test.log 2>&1; then echo "MUTANT $name: repo tests PASS (realistic)"; else echo "MUTANT $name: repo tests FAIL (killed by the suite)"; grep -E "^test .* FAILED|failed" /tmp/bwmut/test.log | head -5; fi
 fi
 rsync -a --delete "$HERE/known_findings.txt" /tmp/bwmut/verif/ 2>/dev/null; for d in regress known; do [ -d "$HERE/$d" ] && rsync -a --delete "$HERE/$d" /tmp/bwmut/verif/; done
+rmdir "$WT/.hg" 2>/dev/null
+if [ -n "${MUT_DEMO:-}" ]; then
+  sh "$MUT_DEMO" "$HERE/target/repo/debug/blockwatch" >/tmp/bwmut/demo_orig.log 2>&1; d0=$?
+  sh "$MUT_DEMO" "$TG/debug/blockwatch" >/tmp/bwmut/demo_mut.log 2>&1; d1=$?
+  echo "MUTANT $name: demo with the unchanged binary exit=$d0, with the changed binary exit=$d1"
+fi
 for id in "$@"; do
   out=$(BWV_VERIF_DIR=/tmp/bwmut/verif BWV_BIN="$TG/debug/blockwatch" BWV_SCRATCH=/dev/shm/bwv-mut "$HERE/target/debug/bwv" "$id" quick 2>&1)
   code=$?
